@@ -1701,6 +1701,10 @@ class Tensor:
         if self._base is not None and not self._base._view_children:
             self._base = None
 
+        if self.base is not None:
+            # mutating a view mutates its base; the base's gradient is now stale too
+            self.base.null_grad()
+
         graph = _dup.DuplicatingGraph(self if self.base is None else self.base)
 
         # Create copy of base so that mutation has no impact on the
